@@ -56,7 +56,7 @@ def contracts():
         // sequence: in particular an installed file is opened - and emptied - only once its pre-edit hooks have succeeded
         adds_a_beginning_of(old(w).fs.events, final(w).fs.events,
             write_trace(*fm, file_type, !old(w).fs.files.contains_key(file_path_spec(*fm, file_type)))), //@C03.installed_file_is_touched_only_after_its_pre_hooks,C10.file_hook_bracket
-""", at=[("before_stmt", "Ok(())", 1, """
+""", at=[("before_tail", None, 1, """
     proof {
         let p = file_path_spec(*fm, file_type);
         assert(w.fs.events =~= old(w).fs.events + write_trace(*fm, file_type, !old(w).fs.files.contains_key(p))); //@C10.file_hook_bracket,C13.chown_after_write
@@ -106,6 +106,10 @@ def build():
     u = Unit("storage", "acmed")
     u.prelude("err", "log", "stdx", "time", "world", "fs")
     u.ghost_call("is_file", method=True)
+    for f in ["metadata", "try_exists", "read", "write", "rename", "remove_file"]:
+        u.ghost_call(f, quals=("fs",))
+    u.ghost_call("flush", method=True)
+    u.ghost_call("sync_all", method=True)
     u.ghost_call("open", method=True)
     u.ghost_call("open", quals=("File",))
     u.ghost_call("create", quals=("File",))
@@ -234,7 +238,7 @@ pub open spec fn hook_ev(fm: FileManager, t: FileType, ty: HookType) -> FsEvent 
 }
 // the kind of an effect (which hook type / open / write / chown), without its details
 pub open spec fn ev_kind(e: FsEvent) -> int {
-    match e { FsEvent::Hook { ty, .. } => ty, FsEvent::Open { .. } => 100, FsEvent::Write { .. } => 101, FsEvent::Chown { .. } => 102 }
+    match e { FsEvent::Hook { ty, .. } => ty, FsEvent::Open { .. } => 100, FsEvent::Write { .. } => 101, FsEvent::Chown { .. } => 102, FsEvent::Rename { .. } => 103, FsEvent::Remove { .. } => 104 }
 }
 // b continues a, and what it adds is, kind by kind, a beginning of t
 pub open spec fn adds_a_beginning_of(a: Seq<FsEvent>, b: Seq<FsEvent>, t: Seq<FsEvent>) -> bool {
